@@ -1,20 +1,41 @@
 /-
   Property C11 — the RFC 7386 output means the same as the merge diff.
-  Statement file (proofs in JdProofs/MergeProofs.lean, namespace `Jd.Merge`).
+  Statement file (proofs: list reading in JdProofs/MergeProofs.lean, namespace `Jd.Merge`;
+  SET+MERGE and MULTISET+MERGE in JdProofs/MergeSetModes.lean, namespace `Jd.MSet`).
 
   Model side: `diffM o a b` with `isMerge o = true` is `a.Diff(b, MERGE, …)`;
   `renderMergeDoc d` (JdModel/MergeFmt.lean) is `Diff.RenderMerge()` before JSON encoding: the
   merge patch DOCUMENT. Spec side: `mergePatch target patch` (JdSpec/Rfc7386.lean) is the pseudocode of
-  RFC 7386 section 2, transcribed; `equivB o` the advertised equivalence.
+  RFC 7386 section 2, transcribed; `equivB o` the advertised equivalence (JdSpec/CanonEq.lean: arrays
+  compared as lists, sets or multisets according to `o`, no hashes).
 
   STATED: for documents as read from JSON text, `b` null-free, that `Equals` tells apart, the diff
-  renders to a merge patch document `m` and `MergePatch(a, m)` is `b` (up to `equivB o`, which ignores
-  the Go dynamic type of array nodes). Without `a ≠ b` when `a` is an object (the empty diff renders
-  to `{}`, the identity on objects). The rendered document is never void and never `null`.
-
-  SCOPE: the MERGE option with the LIST reading of arrays (`dispatchTag o = .list`) and no Precision.
-  SET+MERGE and MULTISET+MERGE are not covered by a theorem (correspondence and oracle only; known
-  finding KF-C04-alias applies there).
+  renders to a merge patch document `m` and `MergePatch(a, m)` is `b` "under the array reading in
+  force". Without `a ≠ b` when `a` is an object (the empty diff renders to `{}`, the identity on
+  objects). The rendered document is never void and never `null`.
+  * MERGE with the LIST reading of arrays (`dispatchTag o = .list`), no Precision: `MergePatch(a, m)`
+    is `b` up to `equivB o`, which in list mode ignores only the Go dynamic type of array nodes.
+    No hash hypothesis.
+  * SET+MERGE and MULTISET+MERGE (`dispatchTag o = .set` / `.mset`, no SetKeys, no Precision): NOW
+    PROVED, RELATIVE TO `HashFaithful o (subterms a ++ subterms b)`. The conclusion is
+        `equals o (mergePatch a m) b = true ∧ equivB o (mergePatch a m) b = true`:
+    the library's `Equals` AND the advertised equivalence, both under the SET / MULTISET reading.
+    It cannot be more: where `a` and `b` hold arrays that are Equal as sets but not as lists the
+    merge diff says nothing and RFC 7386 keeps `a`'s array, so the result is `b` only under the set
+    reading (`result_is_target_under_the_set_reading_only`). Arrays that are not Equal are
+    replaced wholesale.
+    Why the hash hypothesis, and what fails without it:
+      - pre-image ALIASES (known finding KF-C04-alias) leave the `Equals` conclusion intact and
+        break the `equivB` conclusion: `alias_needs_hashFaithful` (`{"k":[[]]}` → `{"k":[""],"z":true}`:
+        the patch is `{"z":true}`, the result Equals `b` and is not equivalent to it);
+      - a genuine FNV collision between two arrays that `Equals` takes for equal while their member
+        identities differ makes `RenderMerge` FAIL (the strict set / multiset diff that the merge
+        strategy runs on "equal" arrays emits a non-merge hunk): `render_fails_on_collision_set`,
+        `render_fails_on_collision_mset`. These two are CONDITIONAL statements: no theorem of this
+        file instantiates them (a concrete pair of arrays that are Equal with no member in common
+        is `fnv_collision_breaks_converse` in JdProps/C05.lean).
+  NOT PROVED: SetKeys with MERGE, Precision with MERGE; the JSON encoding of the document `m` (text
+  level) is outside this file.
 
   HYPOTHESES and why
     `a.wf`, `a.rawDoc`: unique sorted keys, plain arrays (as read from text). `a` MAY contain nulls:
@@ -25,8 +46,13 @@
     `equals o a b = false`: for equal non-object documents the empty diff renders to `{}`, and
        `MergePatch(a, {})` is `{}` — hence the property's "that differ";
     `FloatLaws`: reflexivity of `|x − y| ≤ eps` on the numbers that are copied.
+    Set modes in addition: `a.setDoc`, `b.setDoc` (= `rawDoc` ∧ `wf` ∧ `finiteNums` ∧ `noNegZero`);
+    `FloatEq0` (`|x − y| ≤ +0` only for `x = y`: equivalent numbers have equal hash codes);
+    `HashFaithful o (subterms a ++ subterms b)`: among the sub-terms of `a` and `b`, equal hash codes
+       only for equivalent nodes (no FNV-1a collision, no pre-image alias) — see above.
 -/
 import JdProofs.MergeProofs
+import JdProofs.MergeSetModes
 
 namespace Jd.Props.C11
 open Jd Jd.Spec Jd.Merge
@@ -70,6 +96,125 @@ theorem rendered_merge_patch_is_a_document (L : FloatLaws) (o : Opts) (hm : isMe
     ∃ m, renderMergeDoc (diffM o a b) = .ok m ∧ m.isVoid = false ∧ m.isNull = false :=
   merge_render_doc L o hm ho hprec a b haw har hbw hbr hbn hbv hbf
 
+/-! ## SET+MERGE and MULTISET+MERGE -/
+
+/-- **C11, SET+MERGE and MULTISET+MERGE** (any option list selecting them; no SetKeys, no
+    Precision): the merge diff renders to a JSON Merge Patch document `m`, and RFC 7386
+    `MergePatch(a, m)` is `b` under the array reading in force — for the library's `Equals` and for
+    the advertised equivalence `equivB` -/
+theorem rendered_merge_patch_yields_target_setmodes (F : FloatEq0) (L : FloatLaws) (o : Opts)
+    (hmg : isMerge o = true) (hm : dispatchTag o = .set ∨ dispatchTag o = .mset)
+    (hk : keysOf o = none) (hp : precOf o = 0) (a b : Json)
+    (ha : a.setDoc = true) (hb : b.setDoc = true) (hbn : b.nullFree = true)
+    (hbv : objVoidFree b = true) (HF : HashFaithful o (subterms a ++ subterms b))
+    (hne : equals o a b = false) :
+    ∃ m, renderMergeDoc (diffM o a b) = .ok m ∧
+      equals o (mergePatch a m) b = true ∧ equivB o (mergePatch a m) b = true :=
+  MSet.merge_render_correct_setmodes F L o hmg hm hk hp a b ha hb hbn hbv HF hne
+
+/-- the option list `[SET, MERGE]` itself -/
+theorem rendered_merge_patch_yields_target_SET_MERGE (F : FloatEq0) (L : FloatLaws) (a b : Json)
+    (ha : a.setDoc = true) (hb : b.setDoc = true) (hbn : b.nullFree = true)
+    (hbv : objVoidFree b = true) (HF : HashFaithful [.set, .merge] (subterms a ++ subterms b))
+    (hne : equals [.set, .merge] a b = false) :
+    ∃ m, renderMergeDoc (diffM [.set, .merge] a b) = .ok m ∧
+      equals [.set, .merge] (mergePatch a m) b = true ∧
+      equivB [.set, .merge] (mergePatch a m) b = true :=
+  MSet.merge_render_correct_SET_MERGE F L a b ha hb hbn hbv HF hne
+
+/-- the option list `[MULTISET, MERGE]` itself -/
+theorem rendered_merge_patch_yields_target_MULTISET_MERGE (F : FloatEq0) (L : FloatLaws)
+    (a b : Json) (ha : a.setDoc = true) (hb : b.setDoc = true) (hbn : b.nullFree = true)
+    (hbv : objVoidFree b = true) (HF : HashFaithful [.mset, .merge] (subterms a ++ subterms b))
+    (hne : equals [.mset, .merge] a b = false) :
+    ∃ m, renderMergeDoc (diffM [.mset, .merge] a b) = .ok m ∧
+      equals [.mset, .merge] (mergePatch a m) b = true ∧
+      equivB [.mset, .merge] (mergePatch a m) b = true :=
+  MSet.merge_render_correct_MULTISET_MERGE F L a b ha hb hbn hbv HF hne
+
+/-- set modes, without the hypothesis `a ≠ b` when the first document is an object -/
+theorem rendered_merge_patch_yields_target_setmodes_object (F : FloatEq0) (L : FloatLaws)
+    (o : Opts) (hmg : isMerge o = true) (hm : dispatchTag o = .set ∨ dispatchTag o = .mset)
+    (hk : keysOf o = none) (hp : precOf o = 0) (a b : Json)
+    (ha : a.setDoc = true) (hb : b.setDoc = true) (hbn : b.nullFree = true)
+    (hbv : objVoidFree b = true) (HF : HashFaithful o (subterms a ++ subterms b))
+    (hobj : a.isObj = true) :
+    ∃ m, renderMergeDoc (diffM o a b) = .ok m ∧
+      equals o (mergePatch a m) b = true ∧ equivB o (mergePatch a m) b = true :=
+  MSet.merge_render_correct_setmodes_obj F L o hmg hm hk hp a b ha hb hbn hbv HF hobj
+
+/-- set modes: the rendered patch is a proper merge patch document: never void, never `null` at the
+    root (whether or not the documents differ) -/
+theorem rendered_merge_patch_is_a_document_setmodes (F : FloatEq0) (L : FloatLaws) (o : Opts)
+    (hmg : isMerge o = true) (hm : dispatchTag o = .set ∨ dispatchTag o = .mset)
+    (hk : keysOf o = none) (hp : precOf o = 0) (a b : Json)
+    (ha : a.setDoc = true) (hb : b.setDoc = true) (hbn : b.nullFree = true)
+    (hbv : objVoidFree b = true) (HF : HashFaithful o (subterms a ++ subterms b)) :
+    ∃ m, renderMergeDoc (diffM o a b) = .ok m ∧ m.isVoid = false ∧ m.isNull = false :=
+  MSet.merge_render_doc_setmodes F L o hmg hm hk hp a b ha hb hbn hbv HF
+
+/-! ### Set modes: what the conclusion means, and why `HashFaithful` is there -/
+
+/-- the conclusion is about the SET reading and cannot be about the list reading:
+    `{"s":["x","y"],"u":"x","v":["x"]}` → `{"s":["y","x"],"t":[true],"v":["x","z"]}` under
+    `[SET, MERGE]` (documents `MSet.Example.exA`, `exB`; every hypothesis of the theorem holds, see the
+    examples below). The arrays under `s` are Equal as sets, the patch does not mention `s`,
+    RFC 7386 keeps `["x","y"]`: the result Equals `b` and is equivalent to it as sets, and is NOT
+    equivalent to it under the list reading `[MERGE]`. Relative to `FloatEq0` only. -/
+theorem result_is_target_under_the_set_reading_only (F : FloatEq0) :
+    ∃ m, renderMergeDoc (diffM [.set, .merge] MSet.Example.exA MSet.Example.exB) = .ok m ∧
+      equals [.set, .merge] (mergePatch MSet.Example.exA m) MSet.Example.exB = true ∧
+      equivB [.set, .merge] (mergePatch MSet.Example.exA m) MSet.Example.exB = true ∧
+      equivB [.merge] (mergePatch MSet.Example.exA m) MSet.Example.exB = false := by
+  obtain ⟨h1, h2, h3, h4, h5⟩ := MSet.Example.ex_run_set F
+  exact ⟨_, h1, h2 ▸ h3, h2 ▸ h4, h2 ▸ h5⟩
+
+/-- the same pair under `[MULTISET, MERGE]` (`["x","y"]` and `["y","x"]` are the same bag) -/
+theorem result_is_target_under_the_multiset_reading_only (F : FloatEq0) :
+    ∃ m, renderMergeDoc (diffM [.mset, .merge] MSet.Example.exA MSet.Example.exB) = .ok m ∧
+      equals [.mset, .merge] (mergePatch MSet.Example.exA m) MSet.Example.exB = true ∧
+      equivB [.mset, .merge] (mergePatch MSet.Example.exA m) MSet.Example.exB = true ∧
+      equivB [.merge] (mergePatch MSet.Example.exA m) MSet.Example.exB = false := by
+  obtain ⟨h1, h2, h3, h4, h5⟩ := MSet.Example.ex_run_mset F
+  exact ⟨_, h1, h2 ▸ h3, h2 ▸ h4, h2 ▸ h5⟩
+
+/-- `HashFaithful` cannot be dropped from the `equivB` conclusion (known finding KF-C04-alias: `[]`
+    and `""` have the same hash code). `a = {"k":[[]]}`, `b = {"k":[""],"z":true}`: documents of
+    the domain that `Equals` tells apart; the arrays under `k` are Equal, the merge diff says nothing
+    about them, the rendered patch is `{"z":true}`, RFC 7386 keeps `[[]]`: the result
+    `{"k":[[]],"z":true}` Equals `b` but is NOT equivalent to it as sets. -/
+theorem alias_needs_hashFaithful (a b : Json) (ha : a = .obj [("k", .arr .raw [.arr .raw []])])
+    (hb : b = .obj [("k", .arr .raw [.str ""]), ("z", .bool true)]) :
+    a.setDoc = true ∧ b.setDoc = true ∧ b.nullFree = true ∧ objVoidFree b = true ∧
+    equals [.set, .merge] a b = false ∧
+    renderMergeDoc (diffM [.set, .merge] a b) = .ok (.obj [("z", .bool true)]) ∧
+    mergePatch a (.obj [("z", .bool true)])
+      = .obj [("k", .arr .raw [.arr .raw []]), ("z", .bool true)] ∧
+    equals [.set, .merge] (.obj [("k", .arr .raw [.arr .raw []]), ("z", .bool true)]) b = true ∧
+    equivB [.set, .merge] (.obj [("k", .arr .raw [.arr .raw []]), ("z", .bool true)]) b
+      = false := by
+  subst ha hb; exact MSet.Example.alias_needs_hashFaithful
+
+/-- a hash hypothesis is needed even for `RenderMerge` to succeed, SET+MERGE: two arrays that
+    `Equals` (one comparison of combined hash codes) takes for equal are handed to the strict set
+    diff, which works identity by identity; if it finds a member of the second array whose identity
+    is not in the first (`SetDP.setAdd o xs ys ≠ []`: possible only under an FNV collision of the
+    combined code), the diff contains a non-merge hunk and `RenderMerge` returns an error -/
+theorem render_fails_on_collision_set {o : Opts} (hmg : isMerge o = true)
+    (hd : dispatchTag o = .set) (xs ys : List Json)
+    (he : equals o (.arr .raw xs) (.arr .raw ys) = true) (hadd : SetDP.setAdd o xs ys ≠ []) :
+    renderMergeDoc (diffM o (.arr .raw xs) (.arr .raw ys)) = .err :=
+  MSet.render_err_of_collision_set hmg hd xs ys he hadd
+
+/-- the same for MULTISET+MERGE (`SetDP.bagSurplus o ys xs`: the members of `ys` in excess of `xs`,
+    by hash code) -/
+theorem render_fails_on_collision_mset {o : Opts} (hmg : isMerge o = true)
+    (hd : dispatchTag o = .mset) (xs ys : List Json)
+    (he : equals o (.arr .raw xs) (.arr .raw ys) = true)
+    (hadd : SetDP.bagSurplus o ys xs ≠ []) :
+    renderMergeDoc (diffM o (.arr .raw xs) (.arr .raw ys)) = .err :=
+  MSet.render_err_of_collision_mset hmg hd xs ys he hadd
+
 /-! Non-vacuity: `{"a":{"b":"x","c":null},"d":["p"]}` → `{"a":{"b":"y"},"e":"q"}` (a changed member at
     depth, a removed key at depth, an array replaced by nothing, an added key; `a` contains a null)
     satisfies every hypothesis. -/
@@ -90,5 +235,33 @@ example (L : FloatLaws) :
       equivB [.merge] (mergePatch exA m) exB = true :=
   rendered_merge_patch_yields_target_MERGE L exA exB (by decide) (by decide) (by decide) (by decide)
     (by decide) (by decide) (by decide) (by simp [exA, exB, equals, equalsKvs, alookup])
+
+/-! Non-vacuity, set modes: `MSet.Example.exA = {"s":["x","y"],"u":"x","v":["x"]}` →
+    `MSet.Example.exB = {"s":["y","x"],"t":[true],"v":["x","z"]}` (an array Equal as a set but not as a
+    list, a removed key, an added array, an array replaced wholesale) satisfies every hypothesis of
+    the SET+MERGE and MULTISET+MERGE theorems (`HashFaithful` checked on its 16 sub-terms); only the
+    IEEE-754 laws are left as assumptions. -/
+
+example : MSet.Example.exA.setDoc = true ∧ MSet.Example.exB.setDoc = true ∧
+    MSet.Example.exB.nullFree = true ∧ objVoidFree MSet.Example.exB = true ∧
+    equals [.set, .merge] MSet.Example.exA MSet.Example.exB = false ∧
+    equals [.mset, .merge] MSet.Example.exA MSet.Example.exB = false ∧
+    HashFaithful [.set, .merge] (subterms MSet.Example.exA ++ subterms MSet.Example.exB) ∧
+    HashFaithful [.mset, .merge] (subterms MSet.Example.exA ++ subterms MSet.Example.exB) :=
+  ⟨MSet.Example.ex_docs.1, MSet.Example.ex_docs.2.1, MSet.Example.ex_docs.2.2.1,
+    MSet.Example.ex_docs.2.2.2, MSet.Example.ex_ne.1, MSet.Example.ex_ne.2,
+    MSet.Example.ex_hashFaithful_set, MSet.Example.ex_hashFaithful_mset⟩
+
+example (F : FloatEq0) (L : FloatLaws) :
+    ∃ m, renderMergeDoc (diffM [.set, .merge] MSet.Example.exA MSet.Example.exB) = .ok m ∧
+      equals [.set, .merge] (mergePatch MSet.Example.exA m) MSet.Example.exB = true ∧
+      equivB [.set, .merge] (mergePatch MSet.Example.exA m) MSet.Example.exB = true :=
+  MSet.Example.ex_set F L
+
+example (F : FloatEq0) (L : FloatLaws) :
+    ∃ m, renderMergeDoc (diffM [.mset, .merge] MSet.Example.exA MSet.Example.exB) = .ok m ∧
+      equals [.mset, .merge] (mergePatch MSet.Example.exA m) MSet.Example.exB = true ∧
+      equivB [.mset, .merge] (mergePatch MSet.Example.exA m) MSet.Example.exB = true :=
+  MSet.Example.ex_mset F L
 
 end Jd.Props.C11
